@@ -494,6 +494,47 @@ func TestC05Structured(t *testing.T) {
 	}))
 }
 
+// TestC05Payload: resource payloads in which every attribute of every kind is
+// given a literal of any JSON kind and spelling (the C06 literal generator, half
+// of them ill-typed on purpose), alone, as document data and as a collection member.
+func TestC05Payload(t *testing.T) {
+	r := rec.For("C05Payload")
+
+	rapid.Check(t, prop(r, func(t *rapid.T) {
+		ss := gen.CoherentSchema(t, gen.SchemaOpts{MinTypes: 1, MaxTypes: 2, MaxAttrs: 5, MaxRelEdges: 4, AllKindsChance: 6})
+		ts := &ss.Types[rapid.IntRange(0, len(ss.Types)-1).Draw(t, "type")]
+		pc := gen.ResourcePayload(t, ts, gen.PayloadOpts{IllPerTen: 5, IllRelPerTen: 3, UnknownPerTen: 1, AllFieldsOften: true})
+
+		inputs := []string{pc.Text, `{"data":` + pc.Text + `}`, `[` + pc.Text + `]`, `{"data":null,"included":[` + pc.Text + `]}`}
+		labels := []string{}
+		anyAccepted := false
+
+		for _, in := range inputs {
+			violation, known, outcomes := runEntryPoints(ss.Schema, []byte(in), "/"+ss.Types[0].Name)
+			if violation != "" {
+				t.Fatalf("C05 violated: %s\nschema: %s\ninput: %s", violation, ss, in)
+			}
+
+			if known {
+				exclude(sigBytesPanic)
+				t.Fatalf("C05 violated: panic in Attr.UnmarshalToType for a bytes attribute\nschema: %s\ninput: %s", ss, in)
+			}
+
+			l, acc := outcomeLabels(outcomes)
+			labels = append(labels, l...)
+			anyAccepted = anyAccepted || acc
+		}
+
+		for _, a := range ts.Attrs {
+			if l, ok := pc.Attrs[a.Name]; ok {
+				labels = append(labels, gen.KindName(a.Type, a.Nullable)+"<-"+l.JSONKind)
+			}
+		}
+
+		r.Case(pc.String(), true, labels...)
+	}))
+}
+
 var jsonTokens = []string{
 	"{", "}", "[", "]", ":", ",", `"data"`, `"type"`, `"id"`, `"attributes"`, `"relationships"`, `"included"`, `"errors"`, `"meta"`,
 	`"links"`, "null", "true", "false", "0", "1", "-1", "1e9", `""`, `"a"`, `"x"`, " ", "\n", "\x00", `"\ud800"`, "\xff", `\`,
